@@ -383,6 +383,15 @@ let run_spec line =
        hex_of_bytes (spell sp doc) ^ " " ^ hex_of_bytes (render o sp doc)
      | _ -> "?")
 
+(* ---------- C03 block theorem: comma separated line kinds -> "<dfa state or -> <block rules of the model's parse or ->" *)
+let run_blocks line =
+  let w = List.map (fun x -> z_of_int (int_of_string x)) (split_on ',' line) in
+  let d = match drun dstep O w with Some a -> string_of_int (int_of_nat a) | None -> "-" in
+  let f = match bc_F parser_tables nT_block base w with
+    | Some l -> if l = [] then "." else String.concat "," (List.map (fun z -> string_of_int (int_of_z z)) l)
+    | None -> "-" in
+  d ^ " " ^ f
+
 let () =
   let model = Sys.argv.(1) in
   let f = match model with
@@ -400,6 +409,7 @@ let () =
     | "metaswitch" -> run_metaswitch
     | "talign" -> run_talign
     | "spec" -> run_spec
+    | "blocks" -> run_blocks
     | _ -> failwith "unknown model" in
   try while true do
     let line = input_line stdin in
